@@ -705,6 +705,14 @@ func (u *staticUpstream) HealthCheckWorker(stop chan struct{}) {
 	for {
 		select {
 		case <-ticker.C:
+			// when a tick and stop are both ready, select picks at random:
+			// do not start another round once stop has been closed
+			select {
+			case <-stop:
+				ticker.Stop()
+				return
+			default:
+			}
 			u.healthCheck()
 		case <-stop:
 			ticker.Stop()
